@@ -389,6 +389,15 @@ def hostile_lines(tables, seed, n):
                 key = "filter" if kind == "query" else "pipeline"
                 v = tree if kind == "query" else [tree]
                 out.append(to_json(Obj([("c", "COMMAND"), ("attr", Obj([("ns", "a.b"), ("command", Obj([(key, v)]))]))])).encode())
+    # arrays mixing strings, documents, numbers, nulls and arrays under every table key (a list where the code expects
+    # strings only / documents only)
+    mixed = ["s1", Obj([("value", "v"), ("multi", "m")]), Num("7"), None, ["x"], True, Obj([("wildcard", "w*")])]
+    for tname, path, vk, val in sweep_cases(tables):
+        if vk == "earr":
+            for kind, tree in wrap_positions(tname, path, mixed)[:3]:
+                key = "filter" if kind == "query" else "pipeline"
+                v = tree if kind == "query" else [tree]
+                out.append(to_json(Obj([("c", "COMMAND"), ("attr", Obj([("ns", "a.b"), ("command", Obj([(key, v)]))]))])).encode())
     for w in ("$date", "$oid"):
         for v in ("1", "null", "true", "[]", "{}", '{"$numberLong":"1"}', '["x"]'):
             out.append(('{"c":"QUERY","attr":{"command":{"filter":{"a":{"%s":%s}},"pipeline":[{"$match":{"a":{"%s":%s}}},{"$search":{"equals":{"path":"p","value":{"%s":%s}}}}]}}}' % (w, v, w, v, w, v)).encode())
@@ -406,7 +415,7 @@ def hostile_lines(tables, seed, n):
 
 def oracle_c07(tables, seed, tier, deep):
     big = tier == "thorough" or deep
-    lines = hostile_lines(tables, seed, 4000 if big else 600)
+    lines = hostile_lines(tables, seed, 6000 if big else 1500)
     cfgs = [Cfg(), Cfg(n=True, b=True, i=True, w=True), Cfg(eager=("",), w=True), Cfg(re="^(a|fld)$"), Cfg(enc=3), Cfg(enc=2, n=True)]
     ops = []
     for i, b in enumerate(lines):
@@ -475,6 +484,65 @@ def oracle_c07(tables, seed, tier, deep):
         viol.append({"site": "deep-line:exit1", "detail": "explicit stop expected: first line emitted, message on stderr; got %d bytes of output, stderr %r" % (len(so), se[:100]), "input": "good line; '[' x 6000000; good line", "cfg": "-"})
     return result(viol, len(ops) + len(sops), len(set(lines)), "hostile byte strings: every JSON token class first, truncations and byte flips of real lines, trailing garbage, legacy text lines, invalid UTF-8, lone surrogates, wrong value kinds under $date/$oid/$binary and under every table key, nesting depth up to 20000; each alone (6 flag sets incl. eager/selective/encrypt) and inside a 4-line stream",
                   dist, [lines[5][:100].decode("utf-8", "replace")])
+
+
+def cfg_of_string(cs):
+    """Cfg object of a configuration string of the line protocol (for replaying an operation through the real CLI)"""
+    c = Cfg()
+    if cs == "-":
+        return c
+    for kv in cs.split(";"):
+        k, _, v = kv.partition("=")
+        if k == "r":
+            c.repl = unhx(v)
+        elif k in ("n", "b", "i", "w"):
+            setattr(c, k, v == "1")
+        elif k == "e":
+            c.eager = tuple(unhx(x[1:]) for x in v.split(":") if x)
+        elif k == "z":
+            c.re = unhx(v) if v else None
+        elif k == "y":
+            c.enc = int(v)
+    return c
+
+
+def panics_of_correspondence(diffs):
+    """C07: an operation of the correspondence on which the real code panicked (recovered by the harness) is itself a
+    line content that crashes a run.  Each is turned into a whole log line and confirmed through the real CLI
+    (exit status 2 / a Go panic on stderr)."""
+    viol = []
+    seen = set()
+    for fam, f, goans, modelans in diffs:
+        if not (isinstance(goans, str) and (goans.startswith("panic") or goans.startswith("crash"))):
+            continue
+        try:
+            c = cfg_of_string(f[1])
+            if f[0] == "line":
+                b = unhxb(f[2])
+            elif f[0] in ("stage", "query", "cmd"):
+                tree = dec(f[3])
+                if f[3 - 1] == "1" and not c.eager:
+                    c.eager = ("d",)
+                cmd = {"stage": lambda t: Obj([("aggregate", "c"), ("pipeline", [t]), ("$db", "d")]),
+                       "query": lambda t: Obj([("find", "c"), ("filter", t), ("$db", "d")]),
+                       "cmd": lambda t: t}[f[0]](tree)
+                b = to_json(Obj([("c", "COMMAND"), ("msg", "Slow query"), ("attr", Obj([("ns", "d.c"), ("command", cmd)]))])).encode()
+            else:
+                continue
+        except Exception:
+            continue
+        if c.enc:
+            continue
+        msg = unhx(goans.split(" ", 1)[1]) if " " in goans else goans
+        site = "panic:" + pyre.sub(r"0x[0-9a-f]+|\d+", "N", msg)[:80]
+        if site in seen:
+            continue
+        rc, so, se = run_cli(["redact"] + c.cli(), stdin=b + b"\n", timeout=120)
+        if rc not in (0, 1) or b"panic" in se or b"goroutine " in se:
+            seen.add(site)
+            viol.append({"site": site, "detail": "the real CLI crashed on this line (exit %d): %s" % (rc, se[:300].decode("utf-8", "replace")), "cfg": c.s(), "cli_flags": c.cli(),
+                         "input_hex": hx(b), "input": b[:600].decode("utf-8", "replace"), "found_by": "correspondence family " + fam})
+    return viol
 
 
 # ------------------------------------------------------------------------------------------- C19
@@ -838,6 +906,32 @@ def oracle_c13_visible(tables, seed, tier, deep):
             line = Obj([("c", "COMMAND"), ("msg", "Slow query"), ("attr", Obj([("ns", db + "." + nm), ("command", Obj([("find", nm), ("filter", Obj([(nm, Num("1"))])), ("$db", db)])),
                                                                             ("planSummary", "IXSCAN { %s: 1 }" % nm)]))])
             pairs.append((Case(line), Cfg(repl=rp, w=True, eager=(db,)), nm, db, rp))
+    # compound indexes: every key of the plan summary must come out as ITS OWN pseudonym - also when one key is a
+    # prefix / suffix / infix of another key of the same index, in either order, and when a key looks like a pseudonym
+    plans = []
+    simple = [n for n in names if pyre.fullmatch(r"[A-Za-z][A-Za-z0-9_]*", n)]
+    for i, nm in enumerate(simple):
+        other = simple[(i * 5 + 1) % len(simple)]
+        for keys in ([nm, nm + "Id"], [nm + "Id", nm], [nm, nm + ".tags"], [nm + ".tags", nm, "x" + nm], [nm, other, nm + other], [nm, "a" + nm + "z", other]):
+            for rp in repls[:2] if i % 2 else repls[2:]:
+                summ = "IXSCAN { " + ", ".join("%s: %s" % (k, ["1", "-1"][j % 2]) for j, k in enumerate(keys)) + " }"
+                line = Obj([("c", "COMMAND"), ("msg", "Slow query"), ("attr", Obj([("ns", "d." + nm), ("command", Obj([("find", nm), ("filter", Obj([(k, Num("1")) for k in keys])), ("$db", "d")])),
+                                                                                ("planSummary", summ)]))])
+                plans.append((Case(line), Cfg(repl=rp, eager=("d",)), keys, rp))
+    pres = run_lines([(cs, c) for cs, c, _, _ in plans])
+    for (cs, c, keys, rp), r in zip(plans, pres):
+        t = out_text(r)
+        if t is None:
+            continue
+        o = parse_json(t)
+        exp = "IXSCAN { " + ", ".join("%s: %s" % (py_hash_name(rp, k), ["1", "-1"][j % 2]) for j, k in enumerate(keys)) + " }"
+        got = get_path(o, ("attr", "planSummary"))
+        if got != exp:
+            viol.append({"site": "visible:planSummary", "detail": "index keys %r (replacement %r): planSummary is %r, expected every key as its own pseudonym: %r" % (keys, rp, got, exp),
+                         "cfg": c.s(), "cli_flags": c.cli(), "input": cs.text, "output": t})
+        filt = get_path(o, ("attr", "command", "filter"))
+        if isinstance(filt, Obj) and filt.keys() != [py_hash_name(rp, k) for k in keys]:
+            viol.append({"site": "visible:filter-key", "detail": "fields %r renamed to %r" % (keys, filt.keys()), "cfg": c.s(), "cli_flags": c.cli(), "input": cs.text, "output": t})
     res = run_lines([(cs, c) for cs, c, _, _, _ in pairs])
     for (cs, c, nm, db, rp), r in zip(pairs, res):
         t = out_text(r)
@@ -854,7 +948,7 @@ def oracle_c13_visible(tables, seed, tier, deep):
             filt = get_path(o, ("attr", "command", "filter"))
             if isinstance(filt, Obj) and filt.keys() != [py_hash_name(rp, nm)]:
                 viol.append({"site": "visible:filter-key", "detail": "field %r renamed to %r, expected %r" % (nm, filt.keys(), py_hash_name(rp, nm)), "cfg": c.s(), "cli_flags": c.cli(), "input": cs.text, "output": t})
-    return viol, len(pairs)
+    return viol, len(pairs) + len(plans)
 
 
 def with_visible(fn):
